@@ -54,6 +54,12 @@ def plan(prop, tier, seed):
     if prop in ('C01', 'C02'):
         for t in corpus.widesquare(seed, big=(tier == 'thorough')):
             out.append((t, False))
+    if prop not in ('C18',):
+        for t in corpus.midwide(seed, big=(tier == 'thorough')):
+            out.append((t, False))
+    if prop in ('C03', 'C04', 'C05', 'C06', 'C07', 'C08', 'C09', 'C10'):
+        for t in corpus.biglat(seed, big=(tier == 'thorough')):
+            out.append((t, False))
     if prop in ('C03', 'C04', 'C05', 'C06', 'C08', 'C09', 'C10', 'C11') and tier == 'thorough':
         # larger lattices: random sparse contexts up to 14 x 14
         for t in corpus.randoms(300, seed + 1, 14, 14, 9, 9):
